@@ -16,7 +16,7 @@ U6 = "u6_text"
 
 PROPS = {
     "C01": {
-        "witness": ("w_server", ['w_c01_chunkings', 'w_c12_flush']),
+        "witness": ("w_server", ['w_c01_chunkings', 'w_c12_flush', 'w_c19_faults']),
         "title": "Inbound packets are reassembled exactly under every transport chunking",
         "kani": [("k1_frames", None)],
         "native": ["n1_packet"],
@@ -32,7 +32,7 @@ PROPS = {
         "witness": ("w_server", ['w_c03_responses']),
         "title": "Exactly one complete, protocol-conformant response per command",
         "kani": [],
-        "verus": [(U2, ["U2."]), (U3, ["U3."]), (U5, ["U5."])],
+        "verus": [(U2, ["U2.", "C13.", "C14.", "C09."]), (U3, ["U3.", "C13.", "C14.", "C09.", "C07.row", "C10.reply"]), (U5, ["U5.", "C02.run.log"])],
     },
     "C04": {
         "witness": ("w_server", ['w_c04_big']),
@@ -119,9 +119,10 @@ PROPS = {
         "verus": [(U4, ["U4.", "C08.next"]), (U5, ["C10.", "C02.run.log", "U5.run"])],
     },
     "C18": {
+        "witness": ("w_server", ['w_c04_big', 'w_c11_handshake']),
         "title": "TLS upgrade loses no bytes and leaks no plaintext",
         "kani": [("k7_tls", None)],
-        "verus": [(U1, ["U1.tls"]), (U5, ["C12.init", "C11.auth"])],
+        "verus": [(U1, ["U1.tls", "C04.end", "C04.write", "U1.end", "U1.write"]), (U5, ["C12.init", "C11.auth"])],
     },
     "C19": {
         "witness": ("w_server", ['w_c19_faults']),
@@ -130,7 +131,7 @@ PROPS = {
         "verus": [(U1, ["C01.next.err", "C01.next.none"]), (U2, ["U2."]), (U3, ["U3."]), (U5, ["U5.", "C12.run", "C20.run", "C20.init"])],
     },
     "C20": {
-        "witness": ("w_server", ['w_c20_malformed', 'w_c19_faults', 'w_c01_chunkings']),
+        "witness": ("w_server", ['w_c20_malformed', 'w_c19_faults', 'w_c01_chunkings', 'w_c12_flush']),
         "title": "No client byte sequence can crash or wedge a connection",
         "kani": [("k1_frames", None), ("k2_commands", None), ("k3_decode", ["k3_parse_fixed", "k3_parse_bytes", "k3_parse_temporal"])],
         "native": ["n1_packet"],
